@@ -102,8 +102,13 @@ def edit_in_place(nd):
     nd["f"] = f
 
 
+BROKEN = 4  # index of a frame no design can evaluate (its numeric columns are missing): used as a deviation only
+
+
 def eval_frame0(which, j):
     df = base_frame(which)
+    if j == BROKEN:
+        return df.iloc[[0, 3]].reset_index(drop=True).drop(columns=["x", "z", "xc", "d"])
     if j == 0:
         return df.iloc[[0, 3, 5]].reset_index(drop=True)
     if j == 1:
@@ -350,6 +355,8 @@ def all_ref_keys():
                 for mode in MODES:
                     for v in (0, 1):
                         keys.append((op, spec, j, mode, v))
+            for mode in MODES:
+                keys.append((op, spec, BROKEN, mode, 0))
     keys.append(("edit",))
     keys.append(("cfgbad", "ignore"))
     return keys
@@ -436,7 +443,7 @@ def expand(unit):
         spec, op, m0 = unit[1], unit[2], unit[3]
         which = SPECS[spec][1]
         for j in range(NFR):
-            devs = events_for(1) + [["edit", which, j]]
+            devs = events_for(1) + [["edit", which, j], ["evalc", 0, BROKEN], ["evalg", 0, BROKEN]]  # ... incl. an evaluation that is refused
             for d in devs:
                 if d == [op, 0, j]:
                     continue
